@@ -14,7 +14,9 @@ def main():
             mod.gen(ctx)
             if ctx.broken:
                 print("setup: generator for %s reported: %s" % (name, ctx.broken))
-    rc, out, dt = vlib.sh(["lake", "build"], cwd=vlib.LEAN, timeout=7200)
+    from checks.registry import CHECKS
+    targets = ["Whv.Props." + pid for pid in sorted(CHECKS)] + sorted(set("drv_" + f for c in CHECKS.values() for f in c.get("families", ())))
+    rc, out, dt = vlib.sh(["lake", "build"] + targets, cwd=vlib.LEAN, timeout=7200)
     print(out[-3000:])
     print("setup: lake build rc=%d (%.0fs)" % (rc, dt))
     rc_all |= rc
